@@ -182,13 +182,26 @@ Qed.
 
 (** ** the analyzer's matrix *)
 
-(** without report-summaries: race free under every combination of the other options *)
+(** the matrix of the code as it is ([fixed = true]: the summaries report is written synchronously before STEP 3):
+    race free under every combination of options *)
+Theorem analyzer_race_free :
+  forall report_summaries report_coverage report_paths on_demand,
+    race_free (analyzer report_summaries report_coverage report_paths on_demand true) = true.
+Proof. intros [] [] [] []; vm_compute; reflexivity. Qed.
+
+Theorem analyzer_race_free_prop :
+  forall report_summaries report_coverage report_paths on_demand,
+    RaceFree (analyzer report_summaries report_coverage report_paths on_demand true).
+Proof. intros. apply race_free_spec. apply analyzer_race_free. Qed.
+
+(** without report-summaries: race free under every combination of the other options, in both variants *)
 Theorem analyzer_race_free_without_report_summaries :
   forall report_coverage report_paths on_demand fixed,
     race_free (analyzer false report_coverage report_paths on_demand fixed) = true.
 Proof. intros [] [] [] []; vm_compute; reflexivity. Qed.
 
-(** with report-summaries: the writer goroutine conflicts with STEP 3 of BuildGraph (and more) *)
+(** the matrix of the code BEFORE the repair ([fixed = false]) with report-summaries: the detached writer goroutine
+    conflicts with STEP 3 of BuildGraph (and more) *)
 Definition writer_witness : access * access :=
   (rd s_writer o_summaries, wr s_build3 o_summaries).
 
@@ -206,9 +219,3 @@ Theorem analyzer_report_file_incomplete :
   forall report_coverage report_paths on_demand,
     In file_witness (racy_pairs (analyzer true report_coverage report_paths on_demand false)).
 Proof. intros [] [] []; apply pair_mem_In; vm_compute; reflexivity. Qed.
-
-(** joining the writer before STEP 3 (the proposed fix) removes every conflict *)
-Theorem analyzer_fixed_race_free :
-  forall report_summaries report_coverage report_paths on_demand,
-    race_free (analyzer report_summaries report_coverage report_paths on_demand true) = true.
-Proof. intros [] [] [] []; vm_compute; reflexivity. Qed.
